@@ -32,10 +32,27 @@ type scenario struct {
 	stop      atomic.Bool // set once by the scenario's main goroutine
 	duration  time.Duration
 	hammers   int
-	churn     int // scales the probability of Start/Stop calls
+	churn     int     // scales the probability of Start/Stop calls
+	cut       [10]int // cumulative operation weights of the hammers, see opNames
+	paceUs    int     // upper bound of the hammers' pauses in microseconds
+	sparse    bool    // few notifications, mostly lone disconnects: grace periods can run out
 	outsiderQ time.Duration
 	st        *stats
 }
+
+// The hammers' operations, in the order of scenario.cut.
+const (
+	opIsLeader = iota
+	opLeaderID
+	opToken
+	opStatus
+	opValidate
+	opValidateOrDemote
+	opOnDemote
+	opOnPromote
+	opNotify
+	opLifeCycle
+)
 
 func ms(n int) time.Duration { return time.Duration(n) * time.Millisecond }
 
@@ -82,6 +99,29 @@ func newScenario(seed int64, maxDur time.Duration, st *stats) (*scenario, error)
 	sc.hammers = between(r, 4, 8)
 	sc.churn = []int{1, 3, 3, 10, 25}[r.Intn(5)]
 	sc.outsiderQ = ms([]int{15, 40, 40, 120, 400}[r.Intn(5)])
+	pick := func(v ...int) int { return v[r.Intn(len(v))] }
+	// weights per 10000 calls; the rates of the calls that change something differ by
+	// orders of magnitude between scenarios, so that both "leader lives long" and
+	// "everything happens at once" occur
+	w := [10]int{
+		opIsLeader:         2000,
+		opLeaderID:         1500,
+		opToken:            1500,
+		opStatus:           1500,
+		opValidate:         pick(50, 200, 600),
+		opValidateOrDemote: pick(5, 40, 150, 400),
+		opOnDemote:         pick(300, 1000, 2500),
+		opOnPromote:        pick(200, 700),
+		opNotify:           pick(3, 20, 100, 400),
+		opLifeCycle:        2 * sc.churn,
+	}
+	sum := 0
+	for i, x := range w {
+		sum += x
+		sc.cut[i] = sum
+	}
+	sc.paceUs = pick(300, 1500, 1500, 4000)
+	sc.sparse = w[opNotify] <= 20
 
 	for i := 0; i < n; i++ {
 		h := ms(hs[i])
@@ -183,39 +223,57 @@ func (sc *scenario) hammer(r *rand.Rand) (calls int64) {
 		in := sc.insts[r.Intn(len(sc.insts))]
 		el := in.el
 		calls++
-		x := r.Intn(10000)
-		switch {
-		case x < 2000:
+		x := r.Intn(sc.cut[opLifeCycle])
+		op := 0
+		for x >= sc.cut[op] {
+			op++
+		}
+		switch op {
+		case opIsLeader:
 			_ = el.IsLeader()
-		case x < 3500:
+		case opLeaderID:
 			_ = el.LeaderID()
-		case x < 5000:
-			_ = el.Token()
-		case x < 6500:
+		case opToken:
+			_ = el.Token() != "" && el.IsLeader()
+		case opStatus:
 			st := el.Status()
 			_ = st.IsLeader && st.Token == ""
-		case x < 7000:
+		case opValidate:
 			ctx, cancel := context.WithTimeout(bg, 50*time.Millisecond)
 			_, _ = el.ValidateToken(ctx)
 			cancel()
-		case x < 7400:
+		case opValidateOrDemote:
 			ctx, cancel := context.WithTimeout(bg, 50*time.Millisecond)
 			_ = el.ValidateTokenOrDemote(ctx)
 			cancel()
-		case x < 8400:
+		case opOnDemote:
 			if r.Intn(10) == 0 {
 				el.OnDemote(nil)
 			} else {
 				el.OnDemote(mkDemote(el, r.Intn(8)))
 			}
-		case x < 9100:
+		case opOnPromote:
 			if r.Intn(10) == 0 {
 				el.OnPromote(nil)
 			} else {
 				el.OnPromote(mkPromote(el, r.Intn(8)))
 			}
-		case x < 9500:
-			// connection notifications: mostly disconnect/reconnect pairs
+		case opNotify:
+			// connection notifications
+			if sc.sparse {
+				switch y := r.Intn(10); {
+				case y < 7:
+					sc.notify(&nwg, in, 0)
+				case y < 8:
+					sc.notify(&nwg, in, 1)
+				case y < 9:
+					sc.notify(&nwg, in, 2)
+				default:
+					sc.notify(&nwg, in, 0)
+					sc.notify(&nwg, in, 2)
+				}
+				break
+			}
 			switch r.Intn(8) {
 			case 0, 1, 2:
 				sc.notify(&nwg, in, 0)
@@ -227,14 +285,8 @@ func (sc *scenario) hammer(r *rand.Rand) (calls int64) {
 				sc.notify(&nwg, in, 0)
 				sc.notify(&nwg, in, 1)
 			}
-		case x < 9800:
-			_ = el.Token() != "" && el.IsLeader()
 		default:
-			// life cycle: 2 % of the calls, scaled down by the scenario's churn (1..25 of 500)
-			if r.Intn(500) >= 5*sc.churn {
-				_ = el.IsLeader()
-				break
-			}
+			// life cycle
 			switch z := r.Intn(10); {
 			case z < 5:
 				_ = el.Start(in.ctx)
@@ -269,7 +321,7 @@ func (sc *scenario) hammer(r *rand.Rand) (calls int64) {
 		case p < 6:
 			runtime.Gosched()
 		default:
-			time.Sleep(time.Duration(r.Intn(1500)) * time.Microsecond)
+			time.Sleep(time.Duration(r.Intn(sc.paceUs)) * time.Microsecond)
 		}
 	}
 	return calls
